@@ -20,7 +20,7 @@
 #ifdef CV_HAS_mx_lemma
 void mx_lemma(void)
 __CPROVER_requires(cv_exc_pending == 0)
-__CPROVER_assigns(gh_M_cell, gh_DOORMAN, PROTM_GHOSTS, gh_bq_calls, gh_bq_stop, gh_bq_cell, gh_bq_nodes, gh_fn_calls, gh_fn_arg, gh_qhead, gh_qnext, gh_fn_next_at_call)
+__CPROVER_assigns(gh_M_cell, gh_DOORMAN, PROTM_GHOSTS, gh_bq_calls, gh_bq_stop, gh_bq_cell, gh_bq_nodes, gh_fn_calls, gh_fn_arg, gh_qhead, gh_qnext, gh_fn_next_at_call, gh_q_at_call, gh_mx_this)
 __CPROVER_ensures(1)
 {
   MX m_obj; MX *m = &m_obj; AWT nodeA, nodeB, nodeO; LAMREL frel; LAMDEL fdel;
@@ -33,7 +33,7 @@ __CPROVER_ensures(1)
   { struct mx_abs hS; struct mx_req ha, hb; S = hS; a = ha; b = hb; __CPROVER_assume(LEMMA_INV); }
 
   while (nondet_bool())
-  __CPROVER_assigns(gh_M_cell, gh_DOORMAN, PROTM_GHOSTS, gh_bq_calls, gh_bq_stop, gh_bq_cell, gh_bq_nodes, gh_fn_calls, gh_fn_arg, gh_qhead, gh_qnext, gh_fn_next_at_call,
+  __CPROVER_assigns(gh_M_cell, gh_DOORMAN, PROTM_GHOSTS, gh_bq_calls, gh_bq_stop, gh_bq_cell, gh_bq_nodes, gh_fn_calls, gh_fn_arg, gh_qhead, gh_qnext, gh_fn_next_at_call, gh_q_at_call, gh_mx_this,
                     S, a, b, m_obj, nodeA, nodeB, nodeO)
   __CPROVER_loop_invariant(LEMMA_INV)
   {
@@ -87,6 +87,7 @@ __CPROVER_ensures(1)
     } else if (S.n_own == 1 && S.pend_bq == 0) {                         /* ---------------- release: unlock<Fn> by the owner (release() / ~ownership) */
       MX_VIEW(MX_ME, 0, OWN_NONE); MX_MATERIALISE; void *cell0 = *M_CELL(m);
       int q_n0 = S.q_hi - S.g, ch_n0 = S.arr - S.q_hi;
+      gh_mx_this = m;
       if (op == 3) mx_unlock_rel(m, &frel); else mx_unlock_del(m, &fdel);
       MX_SEQ_UNLOCK(cell0);
       __CPROVER_assert(gh_mx_tok != MX_ME, "LEMMA (1) after unlock the former owner does not own");
